@@ -54,6 +54,7 @@ type siteFile struct {
 		Func string `json:"func"`
 	} `json:"maps"`
 	Packages []string `json:"packages"`
+	SyncPkgs []string `json:"sync_pkgs"`
 }
 
 type driver struct {
@@ -80,6 +81,7 @@ type record struct {
 	err         error
 	twinOK      bool
 	twinRun     bool
+	prelude     [][]byte // what the serving process had executed before this scenario
 	twinBad     string
 	twinLogDiff bool
 }
@@ -116,12 +118,19 @@ func (d *driver) generate(i int) *proto.Scenario {
 	fam := pickFamily(fr, d.fams)
 	b := newBuilder(seed, fam.name)
 	fam.gen(b, d.corpus, d.sites.MapSites)
+	b.sc.SyncPkgs = d.sites.SyncPkgs
 	return b.sc
 }
 
 // execute runs one scenario end to end (references, run, judge). With
 // ss == nil every process involved is a fresh one.
 func (d *driver) execute(ss *session, sc *proto.Scenario) (rec record) {
+	return d.executeWith(ss, nil, sc)
+}
+
+// executeWith: as execute; with ss == nil and a prelude, the prelude scenarios
+// are executed first in the same fresh process.
+func (d *driver) executeWith(ss *session, prelude [][]byte, sc *proto.Scenario) (rec record) {
 	rec.sc = sc
 	refs, err := d.refsFor(ss, sc)
 	if err != nil {
@@ -133,9 +142,12 @@ func (d *driver) execute(ss *session, sc *proto.Scenario) (rec record) {
 	var crashed bool
 	var text string
 	if ss == nil {
-		res, crashed, text, err = d.x.runFresh(sc)
+		res, crashed, text, err = d.x.runSessionFresh(prelude, sc)
 	} else {
 		res, crashed, text, err = ss.run(sc)
+		if err == nil {
+			rec.prelude = ss.prelude()
+		}
 	}
 	if err != nil {
 		rec.err = err
@@ -180,7 +192,7 @@ func (d *driver) execute(ss *session, sc *proto.Scenario) (rec record) {
 		var res2 *proto.Result
 		var crashed2 bool
 		if ss == nil {
-			res2, crashed2, _, err = d.x.runFresh(exact)
+			res2, crashed2, _, err = d.x.runSessionFresh(prelude, exact)
 		} else {
 			res2, crashed2, _, err = ss.run(exact)
 		}
@@ -241,6 +253,7 @@ func main() {
 	verifDir := fs.String("verif", "/verif", "verification directory (evidence, replays, known findings)")
 	file := fs.String("file", "", "replay file")
 	count := fs.Int("n", 0, "number of scenarios (0 = tier default)")
+	native := fs.String("native", "", "worker linked against the untouched tree (selftest fidelity)")
 	fs.Parse(os.Args[2:])
 
 	d := &driver{prop: *prop, tier: *tier, verifDir: *verifDir}
@@ -297,6 +310,12 @@ func main() {
 		os.Exit(d.check(n))
 	case "replay":
 		os.Exit(d.replay(*file))
+	case "selftest":
+		d.corpus, err = loadCorpus(*corpusDir, composerPrograms(d.seed), d.x)
+		if err != nil {
+			fail2("%v", err)
+		}
+		os.Exit(d.selftest(*native, fs.Args()))
 	case "corpus":
 		// debugging aid: how do the composed programs fare in the front end?
 		d.corpus, err = loadCorpus(*corpusDir, composerPrograms(d.seed), d.x)
@@ -392,6 +411,9 @@ func (d *driver) check(n int) int {
 							}
 						}
 					}
+				}
+				if len(rec.findings) == 0 {
+					rec.prelude = nil
 				}
 				recs[i] = rec
 			}
